@@ -216,4 +216,14 @@ def reMatch (pattern text : Str) : Py (Option Unit) :=
   if pattern = s "^/[A-Za-z0-9]{4}$" then .ok (if matchStagerX64 text then some () else none)
   else .error .typeError
 
+/-! ### opaque library objects used by translated functions (their behaviour is a parameter of the translated definition) -/
+
+/-- `AES.new(key, AES.MODE_CBC, iv=iv)`: the cipher object is the pair it was made from; `obj.encrypt(d)` / `obj.decrypt(d)`
+hand the pair and the data to the AES-CBC primitive parameter (which also stands for the key/IV length checks of `AES.new`) -/
+structure AesObj where
+  key : Bytes
+  iv : Bytes
+
+def aesApply (prim : Bytes → Bytes → Bytes → Py Bytes) (o : AesObj) (d : Bytes) : Py Bytes := prim o.key o.iv d
+
 end PyRt
